@@ -50,6 +50,8 @@ type eSchema struct {
 	Fields  []uField // object fields / oneof options
 	Options []string // enum options
 	OptionNum []int  // the `number` an enum option declares (0 = none); ignored by the compiler (positional numbering)
+	Desc       string   // description of the schema: leading comment of the message / enum
+	OptionDesc []string // descriptions of the enum options (parallel to Options, may be shorter)
 }
 
 func (sc eSchema) coq() string {
@@ -85,6 +87,7 @@ func (k eKey) extraAttrs() []string {
 type eEvent struct {
 	Name   string
 	Fields []uField
+	Desc   string // leading comment of the nested message <X>EventType.<Name>
 }
 
 type eMethod struct {
@@ -94,6 +97,7 @@ type eMethod struct {
 	Request    []uField
 	Response   []uField
 	NoResponse bool // no response block: google.api.HttpBody
+	Desc       string // accepted, appears nowhere in the output (methodBuilder's comment set is never merged)
 }
 
 type eCommand struct {
@@ -104,6 +108,7 @@ type eCommand struct {
 	// acceptCommands replaces the declared options by the state_command annotation.
 	Audience    []string
 	OptionsForm int // 0 block, 1 dotted attributes
+	Desc        string // accepted, appears nowhere in the output
 }
 
 type eQuery struct {
@@ -118,6 +123,7 @@ type eQuery struct {
 type eSummary struct {
 	Name   string
 	Fields []uField
+	Desc   string // accepted, appears nowhere in the output
 }
 
 type entityDecl struct {
@@ -129,6 +135,7 @@ type entityDecl struct {
 	Data      []uField
 	Status    []string
 	StatusNum []int // the `number` a status declares (0 = none), parallel to Status (may be shorter)
+	StatusDesc []string // the description of a status ("" = none), parallel to Status (may be shorter)
 	Events    []eEvent
 	Commands  []eCommand
 	Summaries []eSummary
@@ -232,7 +239,27 @@ func (d *entityDecl) coq() string {
 	for i, n := range d.StatusNum {
 		nums[i] = fmt.Sprint(n)
 	}
-	return fmt.Sprintf("(mkE12 %s %s %s %s %s %s %s %s %s %s %s [%s])",
+	notes := "no_notes"
+	{
+		evd := make([]string, len(d.Events))
+		any := false
+		for i, e := range d.Events {
+			evd[i] = e.Desc
+			any = any || e.Desc != ""
+		}
+		scd := make([]string, len(d.Schemas))
+		opd := make([]string, len(d.Schemas))
+		for i, sc := range d.Schemas {
+			scd[i] = sc.Desc
+			opd[i] = coqList(sc.OptionDesc, bt)
+			any = any || sc.Desc != "" || len(sc.OptionDesc) > 0
+		}
+		any = any || len(d.StatusDesc) > 0
+		if any {
+			notes = fmt.Sprintf("(mkN %s %s %s [%s])", coqList(evd, bt), coqList(d.StatusDesc, bt), coqList(scd, bt), strings.Join(opd, "; "))
+		}
+	}
+	return fmt.Sprintf("(mkE13 %s %s %s %s %s %s %s %s %s %s %s [%s] %s)",
 		bt(d.Pkg), bt(d.Name), bt(d.BaseURL),
 		coqList(d.Keys, func(k eKey) string { return fmt.Sprintf("(mkK %s %s)", k.uField.coq(), vh.BoolTerm(k.Shard)) }),
 		fieldsCoq(d.Data),
@@ -250,7 +277,7 @@ func (d *entityDecl) coq() string {
 		coqList(d.Summaries, func(s eSummary) string { return fmt.Sprintf("(mkS %s %s)", bt(s.Name), fieldsCoq(s.Fields)) }),
 		q,
 		coqList(d.Schemas, eSchema.coq),
-		strings.Join(nums, "; "))
+		strings.Join(nums, "; "), notes)
 }
 
 // ---- j5s text ----------------------------------------------------------------------
@@ -382,14 +409,28 @@ func (d *entityDecl) block() string {
 		printField(&sb, "\t", "data", f)
 	}
 	for i, s := range d.Status {
+		var attrs []string
 		if i < len(d.StatusNum) && d.StatusNum[i] != 0 {
-			fmt.Fprintf(&sb, "\tstatus %s {\n\t\tnumber = %d\n\t}\n", s, d.StatusNum[i])
+			attrs = append(attrs, fmt.Sprintf("number = %d", d.StatusNum[i]))
+		}
+		if i < len(d.StatusDesc) && d.StatusDesc[i] != "" {
+			attrs = append(attrs, fmt.Sprintf("description = %q", d.StatusDesc[i]))
+		}
+		if len(attrs) > 0 {
+			sb.WriteString("\tstatus " + s + " {\n")
+			for _, a := range attrs {
+				sb.WriteString("\t\t" + a + "\n")
+			}
+			sb.WriteString("\t}\n")
 		} else {
 			sb.WriteString("\tstatus " + s + "\n")
 		}
 	}
 	for _, e := range d.Events {
 		sb.WriteString("\tevent " + e.Name + " {\n")
+		if e.Desc != "" {
+			fmt.Fprintf(&sb, "\t\tdescription = %q\n", e.Desc)
+		}
 		for _, f := range e.Fields {
 			printField(&sb, "\t\t", "field", f)
 		}
@@ -402,6 +443,9 @@ func (d *entityDecl) block() string {
 		}
 		if c.Base != nil {
 			fmt.Fprintf(&sb, "\t\tbasePath = %q\n", *c.Base)
+		}
+		if c.Desc != "" {
+			fmt.Fprintf(&sb, "\t\tdescription = %q\n", c.Desc)
 		}
 		if c.Audience != nil {
 			q := make([]string, len(c.Audience))
@@ -416,6 +460,9 @@ func (d *entityDecl) block() string {
 		}
 		for _, m := range c.Methods {
 			sb.WriteString("\t\tmethod " + m.Name + " {\n")
+			if m.Desc != "" {
+				fmt.Fprintf(&sb, "\t\t\tdescription = %q\n", m.Desc)
+			}
 			fmt.Fprintf(&sb, "\t\t\thttpMethod = %q\n", verbNames[m.Verb])
 			fmt.Fprintf(&sb, "\t\t\thttpPath = %q\n", m.Path)
 			sb.WriteString("\t\t\trequest {\n")
@@ -440,6 +487,9 @@ func (d *entityDecl) block() string {
 		} else {
 			sb.WriteString("\tsummary " + s.Name + " {\n")
 		}
+		if s.Desc != "" {
+			fmt.Fprintf(&sb, "\t\tdescription = %q\n", s.Desc)
+		}
 		for _, f := range s.Fields {
 			printField(&sb, "\t\t", "field", f)
 		}
@@ -449,20 +499,40 @@ func (d *entityDecl) block() string {
 		switch sc.Kind {
 		case 1:
 			sb.WriteString("\toneof " + sc.Name + " {\n")
+			if sc.Desc != "" {
+				fmt.Fprintf(&sb, "\t\tdescription = %q\n", sc.Desc)
+			}
 			for _, f := range sc.Fields {
 				printField(&sb, "\t\t", "option", f)
 			}
 		case 2:
 			sb.WriteString("\tenum " + sc.Name + " {\n")
+			if sc.Desc != "" {
+				fmt.Fprintf(&sb, "\t\tdescription = %q\n", sc.Desc)
+			}
 			for i, o := range sc.Options {
+				var attrs []string
 				if i < len(sc.OptionNum) && sc.OptionNum[i] != 0 {
-					fmt.Fprintf(&sb, "\t\toption %s {\n\t\t\tnumber = %d\n\t\t}\n", o, sc.OptionNum[i])
+					attrs = append(attrs, fmt.Sprintf("number = %d", sc.OptionNum[i]))
+				}
+				if i < len(sc.OptionDesc) && sc.OptionDesc[i] != "" {
+					attrs = append(attrs, fmt.Sprintf("description = %q", sc.OptionDesc[i]))
+				}
+				if len(attrs) > 0 {
+					sb.WriteString("\t\toption " + o + " {\n")
+					for _, a := range attrs {
+						sb.WriteString("\t\t\t" + a + "\n")
+					}
+					sb.WriteString("\t\t}\n")
 				} else {
 					sb.WriteString("\t\toption " + o + "\n")
 				}
 			}
 		default:
 			sb.WriteString("\tobject " + sc.Name + " {\n")
+			if sc.Desc != "" {
+				fmt.Fprintf(&sb, "\t\tdescription = %q\n", sc.Desc)
+			}
 			for _, f := range sc.Fields {
 				printField(&sb, "\t\t", "field", f)
 			}
